@@ -154,10 +154,12 @@ def plumbing(rep: Report, prog: Program) -> None:
                     sel.append(pre_in_true and plain_in_false)
         rep.ob(rule, f.fq(), 'j_precompute selects J_precompute_products, otherwise J', f.loc(), bool(sel) and all(sel), f"{len(sel)} selection site(s)")
     # comp_opts is a copy of opts with only `method` rewritten; passed to the per-SCC call
-    stores = [n for n in own_nodes(sp.node) if isinstance(n, ast.Assign) and isinstance(n.targets[0], ast.Subscript) and norm(n.targets[0].value) == 'comp_opts']
+    kw = sp.node.args.kwarg.arg if sp.node.args.kwarg else 'opts'
+    cp = [n for n in own_nodes(sp.node) if isinstance(n, ast.Assign) and isinstance(n.targets[0], ast.Name) and norm(n.value) in (f"dict({kw})", f"{kw}.copy()", f"{{**{kw}}}")]
+    cname = cp[0].targets[0].id if cp else None
+    stores = [n for n in own_nodes(sp.node) if isinstance(n, ast.Assign) and isinstance(n.targets[0], ast.Subscript) and norm(n.targets[0].value) == cname]
     keys = {n.targets[0].slice.value for n in stores if isinstance(n.targets[0].slice, ast.Constant)}
-    cp = [n for n in own_nodes(sp.node) if isinstance(n, ast.Assign) and norm(n.targets[0]) == 'comp_opts' and norm(n.value) in ('dict(opts)', 'opts.copy()', '{**opts}')]
-    use = [n for n in own_nodes(sp.node) if isinstance(n, ast.Call) and callee_last(n) == 'apply_to_patterned_tensors' and len(n.args) > 1 and norm(n.args[1]) == 'comp_opts']
+    use = [n for n in own_nodes(sp.node) if isinstance(n, ast.Call) and callee_last(n) == 'apply_to_patterned_tensors' and len(n.args) > 1 and norm(n.args[1]) in (cname, kw)]
     rep.ob(rule, sp.fq(), 'per-SCC options = copy of opts with only `method` rewritten', sp.loc(), bool(cp) and keys <= {'method'} and bool(use), f"keys rewritten per SCC: {sorted(keys)}")
 
 
@@ -200,7 +202,7 @@ def compounding(rep: Report, prog: Program) -> None:
                     ann = norm(g.param_annotation(pn)) if g.param_annotation(pn) is not None else ''
                     if 'PatternedTensor' in ann or 'MultiTensor' in ann:
                         n_sites += 1
-                        rep.ob(rule, f.fq(), f"{callee_last(c)}(..., {a.id}, ...)", f.loc(c), False,
+                        rep.ob(rule, f.fq(), f"{callee_last(c)}(<value that already carries the multiplier> as `{pn}`)", f.loc(c), False,
                                f"`{a.id}` already carries the domain-size multiplier (it comes from {sorted(M)} ) and is multiplied again inside {callee_last(c)}: "
                                f"with three or more edges the factor of an edgeless node is applied once per prefix step")
         # (b) two multiplied values are operands of one einsum
@@ -208,8 +210,8 @@ def compounding(rep: Report, prog: Program) -> None:
             ops = [e for e in c.args[0].elts if isinstance(e, ast.Name) and e.id in tainted]
             if len(ops) >= 2:
                 n_sites += 1
-                rep.ob(rule, f.fq(), f"einsum([{', '.join(o.id for o in ops)}], ...)", f.loc(c), False,
-                       'both operands already carry the domain-size multiplier: their product carries it twice')
+                rep.ob(rule, f.fq(), f"einsum of {len(ops)} operands that already carry the multiplier", f.loc(c), False,
+                       f"operands {[o.id for o in ops]} each already carry the domain-size multiplier: their product carries it twice")
     # the plain paths: F, J, J_log, linear use each sum_product_edges result once (checked as C01-D1); record that they are clean
     clean = [f.name for f in prog.module(SP).functions.values() if not f.is_lambda and f.name in ('F', 'J', 'J_log', 'linear')]
     rep.ob(rule, SP, 'default Jacobian / one-step / linear paths never re-multiply', 'fggs/sum_product.py', True, f"functions without compounding sites: {clean}")
